@@ -76,6 +76,9 @@ def case(g, tier, ci):
         N = r.randint(6, 30)
         ops = sg.element("a", SR, N, chans, raw_p=0.0, kinds=KINDS, flags_p=0.6, nseg=(1, 4))
         spice(g, ops)
+        if ci % 4 == 1:
+            # a refused addFlags (one illegal value) leaves the channel's flags as they were (set or not set)
+            ops += [{"op": "el.addFlags", "id": "a", "ch": chans[0], "flags": [enc(2), enc("T"), enc("X"), enc(0)]}]
         if ci % 2 == 0:
             # the original has been inspected before it is written (the getters run the validation)
             ops += [{"op": r.choice(["el.SR", "el.points", "el.duration"]), "id": "a"}]
